@@ -124,6 +124,54 @@ for _cls, _vals in (("mixed_types", [1, "a", 2]), ("mixed_bool_int", [True, 1]),
     CELLS[("create_property", _cls)] = _fn
 
 
+# dictionary-style subsection creation and the section link
+@cell("sec_setitem_S", "empty_type")
+def _(run, o):
+    s = run.pick("section", o["a"])
+    if s is None:
+        return None
+    sh = run.R(s, 0)
+    n = _unused_name(names_of(s.sections) | names_of(s.props))
+    return (lambda: sh.__setitem__(n, nixio.S(""))), {"op": "create_section", "par": _secparent_index(run, s), "name": n,
+                                                      "type": "t", "pv": 0}
+
+
+@cell("sec_setitem_S", "dup_name")
+def _(run, o):
+    s = run.pick("section", o["a"])
+    if s is None or not s.sections:
+        return None
+    sh = run.R(s, 0)
+    n = s.sections[o["b"] % len(s.sections)].name
+    return (lambda: sh.__setitem__(n, nixio.S("t"))), None
+
+
+def _secparent_index(run, s):
+    ps = run.enum("secparent")
+    return next(i for i, x in enumerate(ps) if x is s)
+
+
+for _cls, _val in (("unknown_id", "00000000-0000-4000-8000-000000000000"), ("not_a_section", 5)):
+    def _fn(run, o, val=_val):
+        s = run.pick("section", o["a"])
+        if s is None:
+            return None
+        sh = run.R(s, 0)
+        return (lambda: setattr(sh, "link", val)), None
+    CELLS[("section_link", _cls)] = _fn
+
+
+@cell("section_link", "wrong_kind")
+def _(run, o):
+    s = run.pick("section", o["a"])
+    bs = run.enum("block")
+    if s is None or not bs:
+        return None
+    sh = run.R(s, 0)
+    bh = run.R(bs[o["b"] % len(bs)], 0)
+    return (lambda: setattr(sh, "link", bh)), None
+
+
 def _array_creation_cell(cls, kwargs_fn):
     def fn(run, o):
         b = run.pick("block", o["a"])
@@ -338,6 +386,24 @@ _data_cell("assign:wrong_shape", lambda h, m: h.__setitem__(slice(None), np.zero
            lambda m: _num(m) and m.data.ndim >= 1)
 _data_cell("assign:text_into_numeric", lambda h, m: h.__setitem__(0, "x"), lambda m: _num(m) and m.data.size > 0)
 _data_cell("assign:too_many_indices", lambda h, m: h.__setitem__((0,) * (m.data.ndim + 1), 1), lambda m: _num(m) and m.data.size > 0)
+# boundary values of the index classes: the first index out of range, from both ends
+_data_cell("assign:first_index_out_of_range", lambda h, m: h.__setitem__(m.data.shape[0], 1), lambda m: _num(m) and m.data.ndim >= 1)
+_data_cell("assign:first_negative_index_out_of_range", lambda h, m: h.__setitem__(-m.data.shape[0] - 1, 1),
+           lambda m: _num(m) and m.data.ndim >= 1)
+
+
+# the same classes through a DataView (get_slice): the window is the array minus its first row
+def _view(h, m):
+    return h.get_slice([1] + [0] * (m.data.ndim - 1), [m.data.shape[0] - 1] + list(m.data.shape[1:]))
+
+
+_viewable = lambda m: _num(m) and m.data.ndim >= 1 and m.data.shape[0] >= 2 and m.data.size > 0  # noqa
+_data_cell("view_assign:index_out_of_range", lambda h, m: _view(h, m).__setitem__(m.data.shape[0] - 1, 1), _viewable)
+_data_cell("view_assign:index_far_out_of_range", lambda h, m: _view(h, m).__setitem__(m.data.shape[0] + 5, 1), _viewable)
+_data_cell("view_assign:wrong_shape", lambda h, m: _view(h, m).__setitem__(slice(None), np.zeros(_wrong_shape(m), dtype=m.data.dtype)),
+           _viewable)
+_data_cell("view_assign:text_into_numeric", lambda h, m: _view(h, m).__setitem__(0, "x"), _viewable)
+_data_cell("view_assign:too_many_indices", lambda h, m: _view(h, m).__setitem__((0,) * (m.data.ndim + 1), 1), _viewable)
 _data_cell("resize:wrong_rank", lambda h, m: setattr(h, "data_extent", tuple(m.data.shape) + (2,)), lambda m: True)
 _data_cell("resize:negative", lambda h, m: setattr(h, "data_extent", (-1,) * m.data.ndim), lambda m: m.data.ndim >= 1)
 
